@@ -16,6 +16,12 @@ import (
 func main() { vkit.Main("C11", []string{"Gen.CellID", "Model.CellUnion"}, run) }
 
 func run(c *vkit.Collector, rng *vkit.Rng, budget int) {
+	// vkit.NewRng(k) and NewRng(k+1) are the SAME splitmix64 stream shifted by one output, and
+	// generators that consume a data-dependent number of values re-synchronize after a few
+	// draws (seeds 1,2,3 then give identical runs).  Re-key once through the mixed output so
+	// that different seeds land at unrelated positions of the stream; still a pure function
+	// of the run's seed.
+	rng = vkit.NewRng(rng.U64())
 	selfTestOracle(rng.U64)
 	g := &G{r: rng, c: c}
 	t := &T{c: c, used: map[string]int{}, cap: map[string]int{
